@@ -27,7 +27,9 @@ func init() {
 			Params: map[string]int{"CT": ct, "PATTERN": pattern, "QUANT": quant, "UNITS": units, "CROP": crop, "SYMBLOCK": symblock}, Reach: []string{"blocks/done"}})
 	}
 	add("quick", 0, 0, 0, 2, 3, 0)
-	add("quick", 1, 3, 0, 1, 0, 1)
+	add("thorough", 0, 1, 0, 1, 0, 0)
+	add("quick", 0, 3, 1, 1, 5, 0)
+	add("thorough", 1, 3, 0, 1, 0, 1)
 	add("thorough", 0, 0, 0, 2, 3, 0)
 	add("thorough", 2, 0, 2, 2, 5, 0)
 	for pat := 1; pat <= 9; pat++ {
